@@ -136,16 +136,11 @@ class ActionSelection(Mapping):
         return self._utilities[key]
 
     def __iter__(self):
-        # Given not all actions have names, there will actions whose keys
-        # will be numbers and not names.
-        i = -1
-        for i, (name, v) in enumerate(self._name2idx.items()):
-            while i < v:
-                yield i
-                i += 1
-            yield name
-        for i in range(i + 1, len(self)):
-            yield i
+        # One key per action in declaration order: the action's name if it has
+        # one, its position otherwise.
+        names = {index: name for name, index in self._name2idx.items()}
+        for i in range(len(self)):
+            yield names.get(i, i)
 
     def __len__(self):
         return len(self._actions)
